@@ -6,9 +6,14 @@ ENTRY = {
         "rule": "one execution = one (group layout, map-iteration seed, loss pattern, assignment of the surviving packets to read ticks) through the real AbacoSource.Sample, "
                 "PrepareChannels, PrepareRun, readerMainLoop, getNextBlock and distributeData with a scripted PacketProducer; every channel's output is compared sample by sample "
                 "with the packets that arrived, filler counts/positions, block lengths, frame numbers and the dropped-frame total are checked; "
-                "non-trivial = at least one packet was lost and filled and the script has at least two deviations",
+                "non-trivial = at least one packet was lost and filled and the script has at least two deviations; "
+                "offsets family (groups leave start-up sampling at unequal offsets: 2..4 packets seen per group, not all equal, and a sequence-number base per group): the groups are aligned on "
+                "'sequence number minus the first sequence number start-up sampling saw', the expected output starts at the first such number that follows start-up sampling in every group, "
+                "arrived packets before it must be discarded, also when they are all a lagging group has delivered while another group already has data; "
+                "non-trivial there = at least one arrived packet predates the first common sequence number and data was delivered",
         "assumptions": ["packets are built with the real constructors and pass through the real encoder/decoder", "unwrapping off (RescaleRaw=false) so samples pass through",
-                        "all groups have the same number of frames per packet (alignment is by sequence number)", "the read period is 0.1 ms instead of 50 ms (same loop)",
+                        "all groups have the same number of frames per packet (alignment is by sequence number)",
+                        "alignment reference as in the code: the first packet of each group that start-up sampling sees is taken as simultaneous (packets with equal 'sequence number minus that first one' carry equal time stamps in the scripts); start-up sampling sees at least two consecutive packets of every group (one packet gives no sample rate)", "the read period is 0.1 ms instead of 50 ms (same loop)",
                         "a loss at the very end of a group's script is not observable: the expected output ends at the last sequence number that arrived in every group"],
     },
 }
